@@ -1,6 +1,9 @@
 """C15 — directory coherence."""
 from __future__ import annotations
 
+from fractions import Fraction
+
+from common import rat
 from histgen import MODE
 from props import _hist
 
@@ -36,11 +39,31 @@ def tolerated(case, i, impl, model):
     return False
 
 
+def two_word_case(rng, k):
+    """units whose symbol consists of two words, the first one a registered
+    symbol itself: found under the whole symbol, built from number + unit and
+    from an amount-and-symbol string as an instance of their own type"""
+    ops = [["decl_class", f"Force{k}", "-", f"dN{k}", "0", "-"],
+           ["decl_class", f"Span{k}", "-", f"dM{k}", "0", "-"],
+           ["decl_class", f"Work{k}", f"c:Force{k}^1;c:Span{k}^1", f"dN{k} dM{k}", "0", "-"],
+           ["new_unit", f"Span{k}", f"sea mile{k}", "qty", "1852", f"dM{k}", MODE],
+           ["new_unit", f"Span{k}", f"dM{k} x{k}", "qty", "3", f"dM{k}", MODE]]
+    meta = [dict(kind="setup")] * len(ops)
+    want = {f"dN{k}": f"Force{k}", f"dM{k}": f"Span{k}", f"dN{k} dM{k}": f"Work{k}",
+            f"sea mile{k}": f"Span{k}", f"dM{k} x{k}": f"Span{k}"}
+    for sym, cls in want.items():
+        amt = rat(Fraction(rng.randint(1, 99), rng.choice([1, 2, 4])))
+        for o in (["q_mk", "-", amt, sym, MODE], ["q_parse", "-", f"{amt} {sym}", "-", MODE],
+                  ["q_parse", cls, f"{amt} {sym}", "-", MODE], ["unit_info", sym]):
+            ops.append(o); meta.append(dict(kind="two-word", sym=sym, cls=cls, amt=amt))
+    return {"ops": ops, "fork": True, "meta": meta, "two_word": True, "world": None, "tags": ["two-word-symbols"]}
+
+
 def gen_cases(rng, tier):
     n = 400 if tier == "thorough" else 80
     return [_hist.gen_history_case(rng, rng.randint(8, 26), refless_script=(i % 5 == 4),
                                    undefined_units=(.5 if i % 4 == 1 else 0.0))
-            for i in range(n)]
+            for i in range(n)] + [two_word_case(rng, k) for k in range(2)]
 
 
 def search_cases(rng, focus, broken):
@@ -48,10 +71,25 @@ def search_cases(rng, focus, broken):
 
 
 def oracle(case, impl):
+    if case.get("two_word"):
+        fails = []
+        for o, m, out in zip(case["ops"], case["meta"], impl):
+            if m["kind"] == "setup":
+                if not out.startswith("ok"):
+                    fails.append({"site": "setup", "msg": f"{o} -> {out}"})
+            elif o[0] == "unit_info":
+                if not out.startswith("ok ") or f"cls={m['cls']} " not in out:
+                    fails.append({"site": "dir:unit-class", "msg": f"{o} -> {out}"})
+            elif out != f"ok qty {m['amt']}@{m['sym']}:{m['cls']}":
+                fails.append({"site": "dir:factory-class", "msg":
+                              f"{o} -> {out}, expected {m['amt']} {m['sym']} ({m['cls']})"})
+        return fails
     return _hist.directory_oracle(case, impl, check_trace=False, check_dir=True)
 
 
 def nontrivial_key(case, impl):
+    if case.get("two_word"):
+        return ("two-word",)
     kinds = sorted(m["kind"] for m in case["meta"] if "expect" in m)
     if not any(k not in ("base-class",) for k in kinds):
         return None
